@@ -48,6 +48,44 @@ Section Chain.
       rewrite (modular_equals_whole exported facts (p_ann p) (p_ts p) up st fo (m_ann rest) (m_ts rest) n Rp Ex Cf Vis Ctl stW stM RW RM).
       exact (IH stM RM).
   Qed.
+  (* ... and when the last run is conflict-free, the whole-program run and the last package's modular run give the same
+     verdict to every site of a set V that is visible (exported, or unknown to the package) at every link of the chain *)
+  Inductive modularV (V : site -> Prop) : list (nat * fact) -> list pkg -> state -> Prop :=
+  | modV_last : forall facts p st,
+      pkg_run facts (p_ann p) (p_ts p) st -> modularV V facts [p] st
+  | modV_cons : forall facts p rest up st fo n stI,
+      pkg_run_up facts (p_ann p) (p_ts p) up st ->
+      export exported up (mp st) = Some fo ->
+      conflicts st = [] ->
+      (forall s, In s (sites_of (csys_of [] (m_ann rest) (m_ts rest))) -> vis exported st s) ->
+      (forall k a, In (k, a) (ctld (pkg_csys facts (p_ann p) (p_ts p))) -> dv st k <> None) ->
+      wf_triggers (m_ts rest) ->
+      (forall s, V s -> vis exported st s) ->
+      modularV V (facts ++ opt_fact n fo) rest stI ->
+      modularV V facts (p :: rest) stI.
+
+  Lemma modularV_modular : forall V facts pkgs stI, modularV V facts pkgs stI -> modular facts pkgs stI.
+  Proof. intros V facts pkgs stI M. induction M; [apply mod_last; assumption|eapply mod_cons; eauto]. Qed.
+
+  Theorem chain_verdicts_equal : forall V facts pkgs stI,
+    modularV V facts pkgs stI ->
+    forall stW, pkg_run facts (m_ann pkgs) (m_ts pkgs) stW ->
+    conflicts stI = [] ->
+    forall s, V s -> dv stW s = dv stI s.
+  Proof.
+    intros V facts pkgs stI M.
+    induction M as [facts p st R|facts p rest up st fo n stI Rp Ex Cf Vis Ctl Wf HV M IH]; intros stW RW CI s Vs.
+    - unfold m_ann, m_ts in RW. cbn [map concat] in RW. rewrite !app_nil_r in RW.
+      destruct (engine_order_independent _ _ _ _ _ _ _ _ (Permutation_refl _) (Permutation_refl _) (Permutation_refl _) RW R) as [I E].
+      apply E. destruct (conflicts stW) eqn:CW; [reflexivity|]. exfalso. apply (proj1 I); [discriminate|exact CI].
+    - unfold m_ann, m_ts in RW. cbn [map concat] in RW. fold (m_ann rest) in RW. fold (m_ts rest) in RW.
+      destruct (engine_terminates (facts ++ opt_fact n fo) (m_ann rest) (m_ts rest) Wf) as [stM RM].
+      assert (CM : conflicts stM = []).
+      { destruct (conflicts stM) eqn:E; [reflexivity|]. exfalso.
+        apply (proj1 (chain_equals_whole _ _ _ (modularV_modular _ _ _ _ M) stM RM)); [rewrite E; discriminate|exact CI]. }
+      rewrite (modular_verdicts_equal exported facts (p_ann p) (p_ts p) up st fo (m_ann rest) (m_ts rest) n Rp Ex Cf Vis Ctl stW stM RW RM CM s (HV s Vs)).
+      exact (IH stM RM CI s Vs).
+  Qed.
 End Chain.
 
 (* ---------- a concrete chain of three packages meets every hypothesis ---------- *)
